@@ -79,14 +79,12 @@ Fixpoint sched_parts (old : Z) (l : list (Z * meth)) : list str :=
      else str_of_Z y ++ [58] ++ meth_upper m) :: sched_parts y t
   end.
 
-(** legend cell next to "Accounting Method" ([_initialize_output_file]); a one-entry schedule is looked
-    up under the key 1970 (KeyError otherwise) *)
-Definition legend_method (sched : list (Z * meth)) : result str :=
+(** legend cell next to "Accounting Method" ([_initialize_output_file]): a one-entry schedule shows its
+    method -- as published the entry was looked up under the key 1970 (KeyError otherwise, finding F10),
+    the repaired code takes the entry's own value; [by_value] is regenerated from the source *)
+Definition legend_method (by_value : bool) (sched : list (Z * meth)) : result str :=
   match sched with
-  | [_] => match find (fun ym => fst ym =? 1970) sched with
-           | Some (_, m) => Ok (meth_upper m)
-           | None => Err EInternal
-           end
+  | [(y, m)] => if by_value || (y =? 1970) then Ok (meth_upper m) else Err EInternal
   | _ => Ok (join_comma (sched_parts 1970 sched))
   end.
 
@@ -180,7 +178,7 @@ Definition legend_writes (i : rinput) : result (list cellw) :=
   match tt_legend_method_row T with
   | None => Err EInternal                          (* RP2RuntimeError: template has no "Accounting Method" cell *)
   | Some r =>
-    match legend_method (rp_sched i) with
+    match legend_method (tt_legend_single_by_value T) (rp_sched i) with
     | Err e => Err e
     | Ok m => Ok [cw r 1 (PStr m); cw (r + 1) 1 (day_cell MIN_DAY (rp_from i)); cw (r + 2) 1 (day_cell MAX_DAY (rp_to i))]
     end
